@@ -200,13 +200,20 @@ theorem all2_V_VB {c : Nat} : ∀ {es : List σ} {les : List (List Nat)}, All2 V
     intro hd
     exact All2.cons ⟨h1, hd _ (by simp)⟩ (ih (fun lo hlo => hd lo (List.mem_cons_of_mem _ hlo)))
 
+theorem all_doc_seek {los : List (List Nat)} {c : Nat} (hs : ∀ lo ∈ los, Sorted lo) (hin : InAll los c) :
+    ∀ lo' ∈ los.map (Spec.seek c), Spec.doc lo' = c := by
+  intro lo' hlo'
+  obtain ⟨lo, hlo, rfl⟩ := List.mem_map.mp hlo'
+  exact Spec.doc_seek_of_mem (hs lo hlo) (hin lo hlo)
+
 /-- valid states -/
 def V (VC : σ → List Nat → Prop) (WC : σ → Nat → List Nat → Prop) (s : State σ) (l : List Nat) :
     Prop :=
   ∃ ll lr los, VC s.left ll ∧ CS VC WC (Spec.doc ll) s.right lr
     ∧ All2 (CS VC WC (Spec.doc ll)) s.others los
     ∧ (ll ≠ [] → Spec.doc ll ∈ lr ∧ InAll los (Spec.doc ll) ∧ VB VC (Spec.doc ll) s.right lr
-        ∧ All2 (VB VC (Spec.doc ll)) s.others los) ∧ l = Common ll lr los
+        ∧ All2 (VB VC (Spec.doc ll)) s.others los
+        ∧ Spec.doc lr = Spec.doc ll ∧ ∀ lo ∈ los, Spec.doc lo = Spec.doc ll) ∧ l = Common ll lr los
 
 theorem common_sorted {ll lr : List Nat} {los : List (List Nat)} (h : Sorted ll) :
     Sorted (Common ll lr los) := h.filter _
@@ -327,7 +334,8 @@ theorem advLoop_law (hC : Lawful C VC WC) :
             rw [← hd']
             exact ⟨(Spec.mem_seek hsr _).mpr ⟨hmR, Nat.le_refl _⟩,
               (inall_map_seek (all2_CS_sorted hC hO) (Nat.le_refl _)).mpr i2,
-              ⟨hVR, by rw [hdocR]; exact Nat.le_refl _⟩, all2_found_VB i1 i2 (all2_CS_sorted hC hO)⟩
+              ⟨hVR, by rw [hdocR]; exact Nat.le_refl _⟩, all2_found_VB i1 i2 (all2_CS_sorted hC hO),
+              hdocR, all_doc_seek (all2_CS_sorted hC hO) i2⟩
           · apply Sorted.ext ((common_sorted hsl).seek cand) (common_sorted hsl')
             intro x
             rw [Spec.mem_seek (common_sorted hsl), mem_common, mem_common, Spec.mem_seek hsl, Spec.mem_seek hsr]
@@ -751,7 +759,7 @@ theorem seek_law (hC : Lawful C VC WC) {s : State σ} {t : Nat} {ll lr : List Na
           rw [ham]; simp only [Spec.doc, List.headD_cons]
           exact ((hsl'.seek cf).2 a (by rw [ham]; simp))
         rw [hdl]
-        refine ⟨?_, ?_, ⟨hRf, by rw [hdr]; exact Nat.le_refl _⟩, ?_⟩
+        refine ⟨?_, ?_, ⟨hRf, by rw [hdr]; exact Nat.le_refl _⟩, ?_, hdr, ?_⟩
         · have := Spec.doc_mem (l := Spec.seek cf lr) (by rw [hdr]; exact hlt)
           rw [hdr] at this; exact this
         · intro lo' hlo'
@@ -762,6 +770,9 @@ theorem seek_law (hC : Lawful C VC WC) {s : State σ} {t : Nat} {ll lr : List Na
           intro lo' hlo'
           obtain ⟨lo, hlo, rfl⟩ := List.mem_map.mp hlo'
           rw [hdo lo hlo]; exact Nat.le_refl _
+        · intro lo' hlo'
+          obtain ⟨lo, hlo, rfl⟩ := List.mem_map.mp hlo'
+          exact hdo lo hlo
       · have hso : ∀ lo ∈ los, Sorted lo := fun lo hlo => hslist lo (by simp [hlo])
         apply Sorted.ext ((common_sorted hsl).seek t) (common_sorted (hsl'.seek cf))
         intro x
@@ -891,7 +902,8 @@ theorem sd_law (hC : Lawful C VC WC) {s : State σ} {t : Nat} {ll lr : List Nat}
         · intro _
           rw [hdl']
           exact ⟨(Spec.mem_seek hsr t).mpr ⟨hmR, Nat.le_refl _⟩, (inall_map_seek hso (Nat.le_refl _)).mpr i2,
-            ⟨hVR, by rw [Spec.doc_seek_of_mem hsr hmR]; exact Nat.le_refl _⟩, all2_found_VB i1 i2 hso⟩
+            ⟨hVR, by rw [Spec.doc_seek_of_mem hsr hmR]; exact Nat.le_refl _⟩, all2_found_VB i1 i2 hso,
+            Spec.doc_seek_of_mem hsr hmR, all_doc_seek hso i2⟩
       | some b =>
         rintro ⟨les', i1, i2, i3, i4, i5⟩
         have hleq : Spec.seek t (Common ll lr los) = Common (Spec.seek t ll) (Spec.seek t lr) les' := by
